@@ -57,7 +57,7 @@ let () =
              Viol "progress: ctx ended / Timeout elapsed on a deadline-honouring conn, Dial had not returned after 3 s"
            else Diff "scenario hung although nothing ended (harness scenario without a trigger)"
          end
-         else if leak = "1" then Viol "a goroutine started by Dial is still alive 1 s after Dial returned"
+         else if leak = "1" then Viol "a goroutine started by Dial is still alive 3 s after Dial returned"
          else if not has_ret then Diff "no return event in the trace"
          else if not (accepts c evs) then
            Diff (Printf.sprintf "trace is not a trace of the Dial LTS (first %d events are)" (int_of_nat (accepted_prefix c evs)))
